@@ -55,6 +55,13 @@ pub struct Cfg {
 fn item(i: usize) -> T3 {
     [ATerm::iri(&format!("http://ex.org/s{i}")).to_simple(), ATerm::iri("http://ex.org/p").to_simple(), ATerm::lit(&format!("{i}")).to_simple()]
 }
+/// items of the "one Turtle statement with an object list" source share subject and predicate
+fn item_grouped(i: usize) -> T3 {
+    [ATerm::iri("http://ex.org/s").to_simple(), ATerm::iri("http://ex.org/p").to_simple(), ATerm::lit(&format!("{i}")).to_simple()]
+}
+fn item_of(source: usize, i: usize) -> T3 {
+    if source == 4 { item_grouped(i) } else { item(i) }
+}
 /// (index, swapped?) of an item as seen by a consumer
 fn decode<T: Triple>(t: &T) -> (usize, bool) {
     if let Some(l) = t.o().lexical_form() {
@@ -216,10 +223,12 @@ where
         0 => {
             let mut calls = 0;
             let r = s.try_for_each_triple(|t| {
-                if Some(calls) == j {
-                    return Err(TagErr(1000 + calls));
-                }
+                // every invocation is counted, so that a delivery *after* the failure is recorded
+                let k = calls;
                 calls += 1;
+                if Some(k) == j {
+                    return Err(TagErr(1000 + k));
+                }
                 seen.push(decode(&t));
                 Ok(())
             });
@@ -229,10 +238,11 @@ where
             let mut calls = 0;
             let res = loop {
                 let r = s.try_for_some_triple(|t| {
-                    if Some(calls) == j {
-                        return Err(TagErr(1000 + calls));
-                    }
+                    let k = calls;
                     calls += 1;
+                    if Some(k) == j {
+                        return Err(TagErr(1000 + k));
+                    }
                     seen.push(decode(&t));
                     Ok(())
                 });
@@ -304,17 +314,17 @@ where
             // remove_all from a graph pre-filled with every item in both orientations
             let mut g: BTreeSet<T3> = BTreeSet::new();
             for i in 0..cfg.n {
-                g.insert(item(i));
-                g.insert(swap(item(i)));
+                g.insert(item_of(cfg.source, i));
+                g.insert(swap(item_of(cfg.source, i)));
             }
             let r = MutableGraph::remove_all(&mut g, s);
             // what was removed = the items seen
             let mut v = vec![];
             for i in 0..cfg.n {
-                if !g.contains(&item(i)) {
+                if !g.contains(&item_of(cfg.source, i)) {
                     v.push((i, false));
                 }
-                if !g.contains(&swap(item(i))) {
+                if !g.contains(&swap(item_of(cfg.source, i))) {
                     v.push((i, true));
                 }
             }
@@ -346,10 +356,11 @@ where
             let mut calls = 0;
             let mut named = false;
             let r = s.try_for_each_quad(|q| {
-                if Some(calls) == j {
-                    return Err(TagErr(1000 + calls));
-                }
+                let k = calls;
                 calls += 1;
+                if Some(k) == j {
+                    return Err(TagErr(1000 + k));
+                }
                 if q.1.is_some() {
                     named = true;
                 }
@@ -440,7 +451,8 @@ fn is_sink_fault(cfg: &Cfg, quad_mode: bool, k: usize, delivered: &[(usize, bool
         // the 3-bit index holds 7 terms: the predicate + 2 per distinct item => the 4th distinct item fails
         5 => {
             let distinct: BTreeSet<usize> = delivered.iter().map(|d| d.0).collect();
-            !distinct.contains(&_x.0) && distinct.len() >= 3
+            // per-item subject: predicate + 2 terms per item; grouped source: subject + predicate + 1 term per item
+            cfg.source != 4 && !distinct.contains(&_x.0) && distinct.len() >= 3
         }
         _ => false,
     }
@@ -464,8 +476,28 @@ fn nt_doc(cfg: &Cfg, turtle: bool) -> String {
     doc
 }
 
-pub const N_SOURCES: usize = 4;
-const SOURCE_NAMES: [&str; N_SOURCES] = ["fallible iterator", "N-Triples parser", "Turtle parser", "FastGraph::triples()"];
+pub const N_SOURCES: usize = 5;
+const SOURCE_NAMES: [&str; N_SOURCES] = ["fallible iterator", "N-Triples parser", "Turtle parser", "FastGraph::triples()", "Turtle parser (one statement with an object list)"];
+
+/// `<s> <p> "0", "1", ... .` with a syntax error spliced in place of object k
+fn grouped_doc(cfg: &Cfg) -> String {
+    if cfg.n == 0 {
+        return if cfg.src_fault == Some(0) { "<http://ex.org/broken".to_string() } else { String::new() };
+    }
+    let mut objs: Vec<String> = vec![];
+    for i in 0..cfg.n {
+        if Some(i) == cfg.src_fault {
+            objs.push("<http://ex.org/broken".to_string());
+        } else {
+            objs.push(format!("\"{i}\""));
+        }
+    }
+    let mut doc = format!("<http://ex.org/s> <http://ex.org/p> {} .\n", objs.join(" , "));
+    if cfg.src_fault == Some(cfg.n) {
+        doc.push_str("<http://ex.org/broken");
+    }
+    doc
+}
 
 fn run_cfg(cfg: &Cfg, quad_mode: bool) -> (Obs, Option<usize>) {
     let pulls = Rc::new(Cell::new(0usize));
@@ -502,6 +534,10 @@ fn run_cfg(cfg: &Cfg, quad_mode: bool) -> (Obs, Option<usize>) {
         }
         2 => {
             let doc = nt_doc(cfg, true);
+            go!(sophia_turtle::parser::turtle::TurtleParser { base: None }.parse_str(&doc).map_triples(|t| own(t)))
+        }
+        4 => {
+            let doc = grouped_doc(cfg);
             go!(sophia_turtle::parser::turtle::TurtleParser { base: None }.parse_str(&doc).map_triples(|t| own(t)))
         }
         _ => {
@@ -698,7 +734,7 @@ pub fn run(tier: Tier) -> Report {
     rep.stats.add("transitions", rep.stats.get("validated"));
     rep.stats.sample(cfg_json(&cfgs[cfgs.len() / 2].0, cfgs[cfgs.len() / 2].1));
     rep.rule = format!(
-        "every pipeline made of: a sequence of 0..{} distinguishable triples; a source (fallible iterator with an injected Err at every position incl. 0, last and none; N-Triples and Turtle parsers with a syntax error spliced into statement k; FastGraph::triples()); an adapter chain = every word of length <= 3 over {{filter_triples, map_triples, filter_map_triples}} with drop sets in {{none, first, last, second, all}} per filtering stage, or (<=1 triple adapter) to_quads (<=1 quad adapter); a consumer (closure failing on its j-th call for every j, driven by try_for_each / a manual try_for_some loop / for_each; collect into Vec / FastGraph; add_to_graph into a 3-bit-index graph that becomes full; insert_all; remove_all; NtSerializer over a writer failing at every other byte budget; quad counterparts); oracle = list semantics: exactly the filtered prefix before the fault is delivered, once, in order; the error is SourceError/SinkError accordingly and carries the injected payload; counts are right; the iterator source is pulled exactly as often as the list model says; non-trivial = runs in which at least one item was delivered",
+        "every pipeline made of: a sequence of 0..{} distinguishable triples; a source (fallible iterator with an injected Err at every position incl. 0, last and none; N-Triples and Turtle parsers with a syntax error spliced into statement k, and a Turtle parser over ONE statement with an object list (several items per parser step) with the error spliced in place of object k; FastGraph::triples()); an adapter chain = every word of length <= 3 over {{filter_triples, map_triples, filter_map_triples}} with drop sets in {{none, first, last, second, all}} per filtering stage, or (<=1 triple adapter) to_quads (<=1 quad adapter); a consumer (closure failing on its j-th call for every j, driven by try_for_each / a manual try_for_some loop / for_each; collect into Vec / FastGraph; add_to_graph into a 3-bit-index graph that becomes full; insert_all; remove_all; NtSerializer over a writer failing at every other byte budget; quad counterparts); oracle = list semantics: exactly the filtered prefix before the fault is delivered, once, in order; the error is SourceError/SinkError accordingly and carries the injected payload; counts are right; the iterator source is pulled exactly as often as the list model says; non-trivial = runs in which at least one item was delivered",
         tier.pick(3, 4)
     );
     rep.bounds = json!({"max_items": tier.pick(3, 4), "chains": ADAPTERS.len(), "quad_chains": QCHAINS.len(), "consumers": N_CONSUMERS + N_QCONSUMERS});
